@@ -38,7 +38,67 @@ def run(run):
     E = P.cls("admin.certificate_v1.HSMCertificateElement")
     chain_walk(run, F, PV, C)
     element_check(run, F, PV, E)
+    declared_tweak(run, E)
     values(run, F, PV, C, E)
+
+
+def declared_tweak(run, E, rid="R2"):
+    """An element `declares a tweak` exactly when its map has one: the constructor's handling of the optional field as a table."""
+    P, A = run.P, run.A
+    from sa.decide import subst
+    ini = P.method(E, "__init__")
+    g = A.cfg(ini, E)
+    mp = ini.params[1]
+    st = {"W": None}
+
+    def res(e):
+        b = st["W"]._bind or {}
+        for _ in range(6):
+            nm_ = {x.id for x in ast.walk(e) if isinstance(x, ast.Name)}
+            hit = {k: v for k, v in b.items() if k in nm_}
+            if not hit:
+                break
+            e = subst(e, hit)
+        return e
+
+    def atom(e):
+        cp = cmp_parts(e)
+        if cp is not None:
+            l, op, r = cp
+            if op in ("in", "not in") and isinstance(l, ast.Constant) and l.value == "tweak" and norm(r) == mp:
+                return ("HAS", op == "in")
+            x = res(l)
+            if isinstance(x, ast.Call) and call_name(x) == "get" and norm(x.func.value) == mp and x.args and isinstance(x.args[0], ast.Constant) and x.args[0].value == "tweak" \
+                    and isinstance(r, ast.Constant) and r.value is None and op in ("is", "is not", "==", "!="):
+                return ("HAS", op in ("is not", "!="))
+        x = res(e)
+        if isinstance(x, ast.Call) and call_name(x) == "is_nonempty_hex_string" and len(x.args) == 1 and _strip(norm(x.args[0])) in (f"{mp}['tweak']", f"{mp}.get('tweak')"):
+            return ("HEX", True)
+        return None
+    W = Walker(A, ini, E, atom, max_leaves=512, max_steps=40000)
+    st["W"] = W
+    n = 0
+    for lf in W.walk(g.entry):
+        keys = [k for k in lf.pc if k in ("HAS", "HEX")]
+        if not keys:
+            continue
+        n += 1
+        where = ini.loc(lf.node.ast) if lf.node.ast is not None else ini.loc()
+        has, hx = lf.pc.get("HAS"), lf.pc.get("HEX")
+        last = [k for k in lf.pc][-1]
+        if lf.kind == "raise":
+            if last in ("HAS", "HEX"):
+                run.check(rid, has is True and hx is False, "an element is refused for its tweak only when it has one that is not hex", key=f"HSMCertificateElement.__init__|tweak|refusal|{has}|{hx}",
+                          where=where, message=f"HSMCertificateElement.__init__ raises on its tweak test under [tweak present: {has}, hex: {hx}]; expected only for a present tweak that is "
+                          "not a non-empty hex string")
+            continue
+        tw = [_strip(norm(lf.deep(st_.value))) for k_, st_, v_ in lf.effects if k_ == "assign" and any(norm(t_) == "self._tweak" for t_ in st_.targets)]
+        want = [f"{mp}['tweak']", f"{mp}.get('tweak')"] if has else ["None"]
+        run.check(rid, bool(tw) and tw[-1] in want and (not has or hx is True), f"[tweak {'present' if has else 'absent'}] the element keeps {'that tweak' if has else 'no tweak'}",
+                  key=f"HSMCertificateElement.__init__|tweak|stored|{has}", where=where,
+                  message=f"HSMCertificateElement.__init__ completes with [tweak present: {has}, hex: {hx}] storing _tweak = {tw[-1:] or 'nothing'}; expected {want[0]}"
+                          + (" after checking it is hex" if has else "") + ": an element that declares a tweak must be verified under the tweaked key, and one that does not under the plain key")
+    run.floor(rid, "paths of HSMCertificateElement.__init__ deciding on the tweak", n, 3)
 
 
 def _while_nodes(g, loop):
